@@ -9,7 +9,7 @@ Export ListNotations.
 Definition code (agree monitor_ok : bool) : nat :=
   (if agree then 0 else 1) + (if monitor_ok then 0 else 2).
 
-Fixpoint failing {C} (chk : C -> nat) (cs : list (nat * C)) : list (nat * nat) :=
+Fixpoint failing {I C} (chk : C -> nat) (cs : list (I * C)) : list (I * nat) :=
   match cs with
   | [] => []
   | (i, c) :: r =>
